@@ -216,6 +216,9 @@ func (t *Dense) Clone() interface{} {
 		if !t.old.IsZero() {
 			retVal.old = t.old.Clone()
 			t.old.CloneTo(&retVal.old)
+			// the pending transposition consists of the old pattern AND the axes: the
+			// in-place Transpose() of the clone reads them
+			retVal.transposeWith = append(BorrowInts(len(t.transposeWith))[:0], t.transposeWith...)
 		}
 		copyDense(retVal, t)
 		retVal.lock()
